@@ -1,1 +1,156 @@
-//! verification hooks used by the check of property C06
+//! verification hooks used by the check of property C06 (and C07, C17): a canonical digest of
+//! the whole session state of a `Context`.
+//!
+//! Read-only. Everything that comes out of a hash map is sorted, floating point numbers are
+//! written as the 16 hex digits of their bit pattern, no spans, source ids or addresses.
+
+use crate::Context;
+use crate::prefix::Prefix;
+use crate::unit::Unit;
+use crate::value::Value;
+
+/// unit as `name:prefix^exponent` factors in stored order (`1` for the empty product)
+pub fn raw_unit(u: &Unit) -> String {
+    let fs: Vec<String> = u
+        .iter()
+        .map(|f| {
+            let p = match f.prefix {
+                Prefix::Metric(0) | Prefix::Binary(0) => "-".to_string(),
+                Prefix::Metric(n) => format!("M{n}"),
+                Prefix::Binary(n) => format!("B{n}"),
+            };
+            format!("{}:{}^{}", f.unit_id.name, p, f.exponent)
+        })
+        .collect();
+    if fs.is_empty() {
+        "1".into()
+    } else {
+        fs.join("*")
+    }
+}
+
+/// raw (unsimplified) value as text
+pub fn raw_value(v: &Value) -> String {
+    match v {
+        Value::Quantity(q) => format!(
+            "q({:016x} {})",
+            q.unsafe_value().to_f64().to_bits(),
+            raw_unit(q.unit())
+        ),
+        Value::Boolean(b) => format!("b({b})"),
+        Value::String(s) => format!("s({s:?})"),
+        Value::DateTime(dt) => format!(
+            "dt({} {} {})",
+            dt.timestamp().as_nanosecond(),
+            dt.offset().seconds(),
+            dt.time_zone().iana_name().unwrap_or("?")
+        ),
+        Value::FunctionReference(r) => format!("f({r})"),
+        Value::FormatSpecifiers(s) => format!("fs({s:?})"),
+        Value::StructInstance(info, fields) => format!(
+            "st({} {})",
+            info.name,
+            fields.iter().map(raw_value).collect::<Vec<_>>().join(",")
+        ),
+        Value::List(l) => format!(
+            "l[{}]",
+            l.iter().map(raw_value).collect::<Vec<_>>().join(",")
+        ),
+    }
+}
+
+fn sorted(mut v: Vec<String>) -> Vec<String> {
+    v.sort();
+    v
+}
+
+impl Context {
+    /// The session state as labelled sections of canonical entries. Covers: imported modules, the
+    /// name tables of the prefix transformer (incl. the prefix parser), the type checker's
+    /// environment (kind and canonical type of every identifier), structs, dimensions and
+    /// namespaces, the interpreter's globals (raw values), last result, functions, units.
+    /// NOT included (by design — property C06 allows them to differ): the source file table and
+    /// the `<input:N>` / `<internal:N>` counters; see [`Context::verif_session_counters`].
+    pub fn verif_session_digest_sections(&self) -> Vec<(&'static str, Vec<String>)> {
+        let mut out: Vec<(&'static str, Vec<String>)> = Vec::new();
+        out.push((
+            "mods",
+            sorted(
+                self.resolver
+                    .imported_modules
+                    .iter()
+                    .map(|m| m.to_string())
+                    .collect(),
+            ),
+        ));
+        let t = &self.prefix_transformer;
+        out.push((
+            "tr.vars",
+            sorted(t.variable_names.iter().map(|s| s.to_string()).collect()),
+        ));
+        out.push((
+            "tr.fns",
+            sorted(t.function_names.iter().map(|s| s.to_string()).collect()),
+        ));
+        out.push((
+            "tr.units",
+            sorted(t.unit_names.iter().map(|g| g.join("|")).collect()),
+        ));
+        out.push((
+            "tr.dims",
+            sorted(t.dimension_names.iter().map(|s| s.to_string()).collect()),
+        ));
+        let (pp_units, pp_others) = t.prefix_parser.verif_c06_digest();
+        out.push(("tr.pp.units", pp_units));
+        out.push(("tr.pp.others", pp_others));
+        out.extend(self.typechecker.verif_c06_digest());
+        out.extend(self.interpreter.verif_c06_digest());
+        out
+    }
+
+    /// one-line form of [`Context::verif_session_digest_sections`]: `label=[e1,e2,..];label=[..]`
+    pub fn verif_session_digest(&self) -> String {
+        self.verif_session_digest_sections()
+            .into_iter()
+            .map(|(l, es)| format!("{l}=[{}]", es.join(",")))
+            .collect::<Vec<_>>()
+            .join(";")
+    }
+
+    /// the part of the session C06 lets differ: `(text inputs, internal inputs, files in the table)`
+    pub fn verif_session_counters(&self) -> (usize, usize, usize) {
+        self.resolver.verif_c06_counters()
+    }
+
+    /// names of the entries of the source file table, in id order
+    pub fn verif_session_file_names(&self) -> Vec<String> {
+        use codespan_reporting::files::Files;
+        let (_, _, n) = self.resolver.verif_c06_counters();
+        (0..n)
+            .map(|id| {
+                self.resolver
+                    .files
+                    .name(id)
+                    .unwrap_or_else(|_| "?".to_string())
+            })
+            .collect()
+    }
+
+    /// structural counters of the type checker and the VM (bytecode length, ip, frames, …)
+    pub fn verif_session_structure(&self) -> String {
+        format!(
+            "{} {}",
+            self.typechecker.verif_c06_structure(),
+            self.interpreter.verif_c06_structure()
+        )
+    }
+
+    /// the modules in `imported_modules` in import order (the digest has them sorted)
+    pub fn verif_imported_modules(&self) -> Vec<String> {
+        self.resolver
+            .imported_modules
+            .iter()
+            .map(|m| m.to_string())
+            .collect()
+    }
+}
